@@ -641,3 +641,23 @@ def concrete_ffwd(regs, edge_t, index, fields):
     if got_val != want_val:
         d.append(('port value', got_val, want_val))
     return d
+
+
+def crosscheck_ffwd(rep, prop, n=400):
+    """Standing CPython cross-check: the real _read_port closure against the int evaluation of ffwd_spec."""
+    import random
+    rnd = random.Random(20260926)
+    groups = sorted(_ffwd_groups())
+    for t in range(n):
+        fields = rnd.choice(groups)
+        regs = [rnd.randrange(256) for _ in range(30)]
+        regs[fields[0]] = rnd.choice((0, 1, 2, 254, 255, rnd.randrange(256)))
+        regs[Z.T] = rnd.randrange(10 ** 7)
+        regs[13] = 0
+        edge = regs[Z.T] + rnd.choice((-5, 0, 1, fields[2] - 1, fields[2], fields[2] + 1, rnd.randrange(1, 30000)))
+        d = concrete_ffwd(regs, edge, rnd.randrange(0, 1000), fields)
+        if d:
+            rep.violation('%s/skoolkit.loadtracer.LoadTracer._read_port/crosscheck' % prop, 'real fast-forward disagrees with the closed form on a concrete state: %s' % (d[:3],),
+                          {'case': {'regs': regs, 'next_edge_t': edge, 'edge_index': 0, 'accelerator_fields': list(fields)}, 'observed_vs_expected': d})
+            break
+    rep.extra['crosscheck_samples'] = rep.extra.get('crosscheck_samples', 0) + n
